@@ -69,6 +69,16 @@ def render(res, n):
         args = ["-l", "-o", path]
     elif res == "equ_text":
         src = h + "eq_name equ " + "1 + " * (n // 4) + "1\n.db 1\n"
+    elif res == "define_value_exact":
+        src = h + ".define A " + ("1+" * n)[:n - 1] + "1\n.db 0\n"
+    elif res == "macro_body_exact":
+        lines = ["  .db 1"] * (n // 8)
+        rest = n - 8 * len(lines)
+        if rest >= 7:
+            lines.append("  .db " + "1" * (rest - 6))
+        elif lines:
+            lines[-1] += "1" * rest
+        src = h + ".macro TABLE_A\n" + "\n".join(lines) + "\n.endm\n.db 0\n"
     elif res == "define_text":
         src = h + ".define DEFV " + "1 + " * (n // 4) + "1\n.dc32 DEFV\n"
     elif res == "include_name":
